@@ -14,6 +14,10 @@ PROPS = {
     "C08": K("c08", bounds="all raw entries / aligned addresses / flag sets; 3-step setter programs; all 512 slots (unwind 514)"),
     "C14": K("c14", bounds="one append from every valid table state, MAX in {1,2,3,8,9} (unwind MAX+2); all descriptors, all u16 selectors"),
     "C15": K("c15", bounds="no loop; all 2^64 TSS addresses, all descriptor bit patterns"),
+    "C16": K("c16", bounds="no loop (PAT: unwind 9); all prior register contents x all argument values; ISA model of ~35 instructions is the trusted base",
+             assumptions=["architectural domain for decoders that panic on impossible raw values (SFMask/UCet/SCet/Star/Pat read are exercised after a typed write only)",
+                          "Cr3::write_raw round trip only for val < 4096 (the CR3 low 12-bit field)"],
+             trusted_base=["rustc->Kani->CBMC", "CaDiCaL", "overlay O1-O4", "ISA model harness/src/verif_isa (mov cr/dr/sreg, rdmsr/wrmsr, xgetbv/xsetbv, rd/wr fs/gs base, swapgs, ltr, l/s gdt/idt, pushfq/popfq, retfq, stmxcsr/ldmxcsr)"]),
     "C17": K("c17", bounds="all RFLAGS values; nesting depth <= 3 (every shape); ISA model of cli/sti/hlt/pushfq/popfq is the trusted base",
              trusted_base=["rustc->Kani->CBMC", "CaDiCaL", "overlay O1-O4", "ISA model harness/src/verif_isa (cli, sti, hlt, pushfq;pop)"]),
     "C18": K("c18", bounds="no loop; all 65536 ports x all values x 3 widths x 3 access kinds",
